@@ -554,3 +554,11 @@ func KeyOf(i int) interface{} {
 	}
 	return i
 }
+
+// Rare reports true for about 1 scenario in n. rapid's small integer ranges are heavily biased towards their lower edge
+// (IntRange(0, 39) == 0 holds far more often than 1 time in 40), which makes an expensive scenario class dominate the budget;
+// here a 64-bit draw is mixed first, so that only the unbiased part of rapid's distribution can hit.
+func Rare(rt *rapid.T, n int, label string) bool {
+	v := rapid.Uint64().Draw(rt, label)
+	return splitmix(v^0x5851f42d4c957f2d)%uint64(n) == 0
+}
